@@ -492,6 +492,12 @@ def run(rep, tier, seed):
     rng = common.rng_for(seed, 'C05')
     drv = common.Driver()
     _CTX['drv'] = drv
+    # one turn of readFromStream's loop is translated from the source on every run (gen/py2lean.py -> GenK.readTurn) and
+    # proved equal to the model's readFromStreamRaw / read-n primitive (Props/C05 source_read_turn_is_model,
+    # source_underrun_only_when_missing); the translation is run against the real generator here
+    from harness import kernels
+    kernels.obligations(rep, ['readTurn'])
+    kernels.check(rep, drv, seed, 400 if tier == 'quick' else 20000, which=('readTurn',))
     limit = 11 if tier == 'quick' else 16
     rep.rule = ('streams s = e1..en of valid BER/CER/DER encodings (fixed shapes: long tag, long length, end-of-octets, BIT STRING, '
                 'CHOICE, nested indefinite, DER/CER decoders, with and without guiding type; generated: types of depth<=2, 1-4 items, '
